@@ -294,4 +294,48 @@ PROPS["C07"] = {
     "timeout_quick": 1200, "timeout_thorough": 7200,
 }
 
+_IP_RULE = ("generated per-node IPAM records (0-3 interfaces in use / being attached / given up, secondary, trunk or RDMA, 1-cap IPv4 and 0-cap IPv6 "
+    "entries each, valid or deleting, bound to existing, vanished or re-created pods with current, stale or empty UIDs; 1 in 12 records malformed), "
+    "pod sets (IPv4, IPv6 or dual stack, RDMA pods, pods already reporting addresses that are free / bound to others / unknown), NodeRuntime objects "
+    "(latest status deleted / initial / deleted-then-set-up-again / no entry / object missing) and node configurations (quotas 2-15, flavor, trunk, "
+    "RDMA, pool watermarks) through the REAL functions buildIPMap+releasePodNotFound, buildIPMap+assignIPFromLocalPool, getEniOptions+"
+    "assignEniWithOptions and adjustPool+releaseUnUsedIP; the outcome (record after, pods left, plan) is compared with the Lean relations. "
+    "non-trivial = record with at least one interface; distinct = distinct op line.")
+_IP_TRUST = ["Model/Ipam.lean (hand-written relations)", "hook pkg/controller/multi-ip/node/zz_verif_export.go",
+    "controller-runtime fake client serving the NodeRuntime object"]
+_IP_ASSUME = ["the functions are exercised one at a time on a record; their composition in Reconcile (with the cloud calls in between) is exercised by the closed-loop part of C08/C03 only through monitors",
+    "ECS back end (batch size 10); the EFLO back end (batch size 1, no attach step) is not exercised"]
+
+PROPS["C02"] = {
+    "lean": ["C02"],
+    "required": ["C02.c02_binding_never_moves", "C02.c02_new_binding_sound", "C02.c02_one_address_per_family", "C02.c02_wellformed_preserved", "C02.c02_entries_kept"],
+    "rule": _IP_RULE,
+    "technique": "Lean 4: the assignment step as a relation between the record before and after (quantified over Go's map orders), theorems about everything the relation admits; every outcome of the real assignIPFromLocalPool is checked to satisfy the relation",
+    "level_text": "Theorems about every outcome the relation admits: a binding never moves between pods; a new binding goes to a pod of the node that needs that family and has none, to exactly the address it reports (re-adoption) or a valid unbound address on an interface in use, RDMA interfaces to RDMA pods only, IPv6 on the interface of the pod's IPv4 address; at most one address per pod and family; addresses and their status untouched. That the real function only produces admitted outcomes is validated, not proved; cloud drift and controller restarts enter only as arbitrary initial records: partial.",
+    "level_note": "Trusted: Lean kernel; Model/Ipam.lean relates to the code by the correspondence run only. The daemon's read-back (crdv2.go multiIP) is not modelled.",
+    "assumptions": _IP_ASSUME, "trusted_base": _IP_TRUST, "design_ref": "DESIGN.md §4 C02",
+}
+PROPS["C03"] = {
+    "lean": ["C03"],
+    "required": ["C03.c03_release_only_when_gone_and_confirmed", "C03.c03_release_when_gone_and_confirmed", "C03.c03_release_keeps_existing",
+                 "C03.c03_release_changes_binding_only", "C03.c03_release_needs_runtime", "C03.c03_trim_only_idle", "C03.c03_assign_never_unbinds",
+                 "C03.c03_agent_ignores_stale_del"],
+    "rule": _IP_RULE + " Node-agent side: the daemon world of C04 (real networkService) with an observing network interface that records the pod UID every Release is reported for, over histories in which pods are re-created under the same name while DELs for old sandboxes arrive.",
+    "technique": "Lean 4: releasePodNotFound modelled as a total function with theorems for all records/pods/runtime reports; trimming as a relation with theorems about everything it admits; differential correspondence of the real functions; daemon-side monitor on the UID teardown is reported for",
+    "level_text": "Theorems: an address is unbound only when its pod is not on the node and (unless the binding has no UID) the node agent's latest report for that UID is 'deleted', and then it is unbound; an existing pod keeps its address; an unreadable NodeRuntime releases nothing; trimming marks only unbound non-primary addresses and gives an interface up only when nothing on it is bound; the assignment step never unbinds; the agent ignores a DEL for a stale sandbox. The two-process protocol (lost / delayed / duplicated NodeRuntime updates, API write failures) is covered only as 'any NodeRuntime content': partial.",
+    "level_note": "Trusted: Lean kernel; fake API objects. Not modelled: the daemon's periodic syncDeletedPods / cleanRuntimeNode bookkeeping, unassignment in handleStatus (it unassigns every entry marked Deleting; that marked entries are unbound is the trim theorem).",
+    "assumptions": _IP_ASSUME, "trusted_base": _IP_TRUST + ["daemon world (see C04)"], "design_ref": "DESIGN.md §4 C03",
+    "timeout_quick": 1200, "timeout_thorough": 5400,
+}
+PROPS["C08"] = {
+    "lean": ["C08"],
+    "required": ["C08.c08_plan_within_quota", "C08.c08_slots_within_flavor", "C08.c08_no_plan_on_unattached", "C08.planPass_within"],
+    "rule": _IP_RULE,
+    "technique": "Lean 4: getEniOptions/assignEniWithOptions modelled as functions of the interface order, quota theorems by induction over the option list; differential correspondence of the real planning functions; closed-loop runs of the real Reconcile against a fake cloud with fault injection (monitors)",
+    "level_text": "Theorems for every interface order, record and demand: on an existing interface the plan asks for no more than its quota leaves and only when it is in use; for a new interface no more than the per-interface quota; never more than a batch; existing interfaces plus new slots never exceed the flavor. Convergence to a fixed point and rollback of failed creation are exercised by the closed-loop runs (monitors), not proved: partial.",
+    "level_note": "Trusted: Lean kernel; fake cloud and fake API server of the closed-loop runs.",
+    "assumptions": _IP_ASSUME, "trusted_base": _IP_TRUST, "design_ref": "DESIGN.md §4 C08",
+    "timeout_quick": 1200, "timeout_thorough": 5400,
+}
+
 NOT_APPLICABLE = {}
